@@ -19,6 +19,9 @@ structure Diag where
   /-- node the diagnostic originates from when that is not the located node (the call site of a
       use-after-call): part of the related information, which the output channels drop -/
   site : Option Nat := none
+  /-- rank of the file by name (0 = attached to no file): the first component of the sort key; set by
+      `runAll` just before sorting -/
+  frank : Nat := 0
   deriving Repr, Inhabited
 
 def lintVariantOfCode (code : String) : Option String :=
